@@ -7,16 +7,8 @@
 package proxy
 
 //@ unit policies frames=on props=C05 filter=`proxy\.(First|Random|LeastConn|RoundRobin)\)\.Select$|hostByHashing$`
-//@ func (*UpstreamHost).Down
-//@   pure reads UpstreamHost
-//@ func (*UpstreamHost).Full
-//@   pure reads UpstreamHost
-//@   ensures result == (uh.MaxConns > 0 && uh.Conns >= uh.MaxConns)
-//@ func (*UpstreamHost).Available
-//@   pure reads UpstreamHost
-//@   ensures result == (!uh.Down() && !uh.Full())
-//@ func hash
-//@   pure
+//@ // the host-state predicates through the contracts proved in unit host_state
+//@ use caskethttp/proxy/contracts_verif.go:host_state
 
 //@ func (*First).Select
 //@   requires forall(k, 0, len(pool), pool[k] != nil)
@@ -303,9 +295,7 @@ package proxy
 //@   loop 4 invariant forallT(k, string, !touched(k) ==> kept(k)) && forallT(k, string, has(rules, k) == old(has(rules, k)) && rules[k] == old(rules[k])) && has(replacements, ruleField)
 
 //@ unit upstream_select frames=on props=C05,C11 filter=`proxy\.staticUpstream\)\.Select$`
-//@ func (*UpstreamHost).Available
-//@   pure reads UpstreamHost.Unhealthy, UpstreamHost.Fails, UpstreamHost.Conns, UpstreamHost.MaxConns, UpstreamHost.CheckDown
-//@   requires uh != nil
+//@ use caskethttp/proxy/contracts_verif.go:host_state
 //@ extern invoke:(github.com/tmpim/casket/caskethttp/proxy.Policy).Select
 //@   requires len(pool) >= 2 && exists(k, 0, len(pool), pool[k].Available())
 //@   ensures result == nil || (exists(k, 0, len(pool), result == pool[k]) && result.Available())
@@ -550,3 +540,54 @@ package proxy
 //@ // against exactly that contract (safety and an empty frame), so that assumption is a proved fact
 //@ use @verif/specs/stdlib.spec:stdlib
 //@ func createRespHeaderUpdateFn
+
+//@ unit host_state frames=on props=C05 verify_pure=on nilchecks=on filter=`proxy\.UpstreamHost\)\.(Down|Full|Available)$|proxy\.(hash|requestIsWebsocket)$`
+//@ // what the policy, selection and proxy units assume of the host-state predicates, proved: they write nothing, Full is the
+//@ // connection-limit test, and Available is "not down and not full"
+//@ use @verif/specs/stdlib.spec:stdlib
+//@ extern (net/http.Header).Get
+//@   pure
+//@ extern hash/fnv.New32a
+//@ extern invoke:(hash.Hash32).Sum32
+//@ extern log.Println
+//@ func (*UpstreamHost).Down
+//@   pure reads UpstreamHost
+//@   requires uh != nil
+//@ func (*UpstreamHost).Full
+//@   pure reads UpstreamHost
+//@   requires uh != nil
+//@   ensures result == (uh.MaxConns > 0 && uh.Conns >= uh.MaxConns)
+//@ func (*UpstreamHost).Available
+//@   pure reads UpstreamHost
+//@   requires uh != nil
+//@   ensures result == (!uh.Down() && !uh.Full())
+//@ func hash
+//@   pure
+//@ func requestIsWebsocket
+//@   pure
+//@   requires req != nil
+
+//@ unit director frames=on props=C04 nilchecks=on filter=`proxy\.NewSingleHostReverseProxy\$1$|proxy\.NewSingleHostReverseProxy\$1\$1$`
+//@ // C04 "its path changed only by the configured base path and 'without' prefix", "the same query": the director that
+//@ // rewrites the outgoing URL. For a backend that is not a unix socket: scheme and host are the backend's, the path is the
+//@ // backend's base path joined by exactly one slash with the request path less the `without` prefix, and the query is the
+//@ // backend's query followed by the request's. singleJoiningSlash through its own contract (unit joining_slash), as a function.
+//@ extern strings.TrimPrefix
+//@   pure
+//@   ensures prefix == "" ==> result == s
+//@ // documented form of URL.String: "scheme:" first when a scheme is set (assumed)
+//@ extern (*net/url.URL).String
+//@   ensures u.Scheme != "" ==> len(result) >= len(u.Scheme) + 1
+//@ func singleJoiningSlash
+//@   pure
+//@ func NewSingleHostReverseProxy$1$1
+//@   pure
+//@   ensures result == val || (val == "" && result == def)
+//@ func NewSingleHostReverseProxy$1
+//@   requires req != nil && req.URL != nil && target != nil && target != req.URL
+//@   modifies URL.Scheme, URL.Host, URL.Path, URL.Opaque, URL.RawPath, URL.RawQuery
+//@   ensures [backend_scheme_and_host] (target.Scheme != "unix" && target.Scheme != "srv" && target.Scheme != "srv+https") ==> (req.URL.Scheme == target.Scheme && req.URL.Host == target.Host)
+//@   ensures [srv_backends_speak_http_or_https] (target.Scheme == "srv" ==> req.URL.Scheme == "http") && (target.Scheme == "srv+https" ==> req.URL.Scheme == "https")
+//@   ensures [path_is_base_path_joined_with_request_path_less_the_without_prefix] target.Scheme != "unix" ==> req.URL.Path == singleJoiningSlash(target.Path, strings.TrimPrefix(old(req.URL.Path), without))
+//@   ensures [query_is_backend_query_then_request_query] ((targetQuery == "" || old(req.URL.RawQuery) == "") ==> req.URL.RawQuery == targetQuery + old(req.URL.RawQuery)) && ((targetQuery != "" && old(req.URL.RawQuery) != "") ==> req.URL.RawQuery == targetQuery + "&" + old(req.URL.RawQuery))
+//@   ensures [no_opaque_or_raw_path_invented] (target.Scheme != "unix" && old(req.URL.Opaque) == "" && target.Opaque == "") ==> req.URL.Opaque == ""
